@@ -146,6 +146,35 @@ if not jeq(ja, jb): return "aggregator-filled-differently"
                    tree=expr, bounds=f"expression {expr!r} vs {fn}; x, y symbolic reals; dict and attribute records; {agg} filled with 2 records")
 
 
+def mixed_shapes(timeout=60):
+    """one wrapper sees records of differing shape in sequence: every call must equal the plain function on that record;
+    a record that lacks a field must raise (never silently reuse an earlier record's value)"""
+    body = """
+u = U.UserFcn("x + 1")
+s0 = sel(k, 0.0, 1.5, -2.0)
+seq = [dict(x=a), s0, Rec(x=b), dict(x=a, extra=b), s0, dict(x=b)]
+for i, rec in enumerate(seq):
+    want = (rec["x"] if isinstance(rec, dict) else (rec.x if isinstance(rec, Rec) else rec)) + 1
+    if u(rec) != want: return "call-%d-of-mixed-sequence-wrong" % i
+v = U.UserFcn("x + y")
+if v(dict(x=a, y=b)) != a + b: return "two-field-record-wrong"
+r = raises(v, dict(x=a))
+if r is None: return "record-lacking-a-field-silently-evaluated"
+r = raises(v, Rec(x=b))
+if r is None: return "attribute-record-lacking-a-field-silently-evaluated"
+if v(dict(x=b, y=a)) != a + b: return "call-after-failed-call-wrong"
+with NT():
+    h1 = H.Sum("x + 1"); h2 = H.Sum(lambda d: (d["x"] if isinstance(d, dict) else d) + 1)
+    h1._checkForCrossReferences(); h2._checkForCrossReferences()
+for rec in (dict(x=a), s0, dict(x=b)):
+    h1.fill(rec); h2.fill(rec)
+if h1.sum != h2.sum or h1.entries != h2.entries: return "aggregator-over-mixed-records-differs"
+"""
+    return Harness("C17/expr/mixed-shapes", [("a", "float"), ("b", "float"), ("k", "int")], "0 <= k <= 2", body, timeout=timeout,
+                   setup=C17_SETUP, tree="UserFcn('x + 1'), UserFcn('x + y')",
+                   bounds="dict / bare scalar (concrete by selector) / attribute records interleaved through one wrapper; a, b symbolic reals")
+
+
 def scalar_expr(timeout=40):
     body = """
 vals = [0.0, 1.5, -2.0, 3.0]
@@ -188,4 +217,5 @@ def harnesses(tier):
     for i, (e, f) in enumerate(EXPRS):
         out.append(string_expr(i, e, f, timeout=60 if tier == "quick" else 180))
     out.append(scalar_expr())
+    out.append(mixed_shapes())
     return out
